@@ -97,6 +97,14 @@ pub fn exec(func: &str, a: &mut Args) -> String {
                 Ok(Some(c)) => format!("{} @ {} {}", c03::fcontact(&Some(c)), ff(g1.distance_to_point(&p1, &c.point1, true)), ff(g2.distance_to_point(&p2, &c.point2, true))),
             }
         }
+        // ---- follow-up 2: contact distance of two rectangles with parallel axes (closed-form model): he1 he2 t pos1
+        "rect2_dist" => {
+            let he1 = d2::v(a); let he2 = d2::v(a); let t = d2::v(a); let p1 = d2::iso(a);
+            let p2 = p1 * d2::Isometry::translation(t.x, t.y);
+            match crate::p2::query::contact(&p1, &crate::p2::shape::Cuboid::new(he1), &p2, &crate::p2::shape::Cuboid::new(he2), 1.0e6) {
+                Ok(Some(c)) => ff(c.dist), Ok(None) => "none".into(), Err(_) => "unsupported".into(),
+            }
+        }
         "k2_contact" | "e2_contact" => {
             use crate::p2::query::PointQuery as _;
             let s1 = c03::two::sh(a); let p1 = d2::iso(a); let s2 = c03::two::sh(a); let p2 = d2::iso(a); let pred = a.f();
@@ -300,6 +308,7 @@ pub mod fu2 {
             let (m1, m2) = (g1.as_support_map()?, g2.as_support_map()?);
             let sup = |d: &Vector<Real>| Cso3::from_shapes(&rel0, m1, m2, d).point.coords;
             let v1 = sup(&lat_dir3(r)); let v2 = sup(&lat_dir3(r)); let v3 = sup(&lat_dir3(r));
+            if (v2 - v1).norm() < 1.0e-9 { continue; }
             let w = |r: &mut Rng| *r.pick(&[0.125, 0.25, 0.5, 0.75]);
             let t = if r.below(3) != 0 { let m = w(r); v1 + (v2 - v1) * m } else { let (m, n) = (w(r) * 0.5, w(r) * 0.5); v1 + (v2 - v1) * m + (v3 - v1) * n };
             let rel = c03::iso_of(rot, t);
@@ -342,7 +351,8 @@ pub mod fu2 {
             // two support points in opposite directions straddle the body of the configuration-space obstacle
             let d = lat_dir2(r);
             let v1 = sup(&d); let v2 = if r.bool() { sup(&-d) } else { sup(&lat_dir2(r)) };
-            let m = *r.pick(&[0.0, 0.125, 0.25, 0.5, 0.75]);
+            let m = *r.pick(&[0.125, 0.25, 0.5, 0.75]);
+            if (v2 - v1).norm() < 1.0e-9 { continue; }
             let t = v1 + (v2 - v1) * m;
             let rel = iso2_of(rot, t);
             if let Some(dm) = gjk_dim2(&s1, &s2, &rel) { if dm < 2 || r.below(4) == 0 { return Some((s1, s2, rel, dm)); } }
@@ -550,6 +560,22 @@ pub mod fu2 {
             let p2 = p1 * rel;
             let (a, bb) = if r.bool() { ((s1, p1), (s2, p2)) } else { ((s2, p2), (s1, p1)) };
             v.push(("e_contact".into(), format!("{} {} {} {} {}", c03::hsh(&a.0), d3::hiso(&a.1), c03::hsh(&bb.0), d3::hiso(&bb.1), hx(par(r)))));
+        }
+        // ---- rectangles with parallel axes (closed-form model): translation along a diagonal of the sum box (GJK ends on
+        //      a segment), inside a symmetry axis, generic; overlapping / apart; local frame and under a world pose
+        {
+            let e = |r: &mut Rng| if lat { dy(r) } else { r.uniform(0.2, 2.0) };
+            let (he1, he2) = (Vec2::new(e(r), e(r)), Vec2::new(e(r), e(r)));
+            let hs = he1 + he2;
+            let f = |r: &mut Rng| if lat { *r.pick(&[-1.5, -0.75, -0.5, -0.25, 0.0, 0.25, 0.5, 0.75, 1.5]) } else { r.uniform(-1.6, 1.6) };
+            let fam = r.below(4);
+            let t = match fam { 0 => { let k = f(r); Vec2::new(hs.x * k, hs.y * k * if r.bool() { 1.0 } else { -1.0 }) }
+                                1 => if r.bool() { Vec2::new(hs.x * f(r), 0.0) } else { Vec2::new(0.0, hs.y * f(r)) },
+                                _ => Vec2::new(hs.x * f(r), hs.y * f(r)) };
+            // the diagonal family is posed exactly only: under an inexact world pose the origin ends within rounding of GJK's
+            // segment and the known absolute-tolerance finding (see e2_contact) would show up as a model disagreement
+            let p1 = match r.below(if fam == 0 { if lat { 2 } else { 1 } } else { 3 }) { 0 => Iso2::identity(), 1 => iso2_of(exact_rot2(r), Vec2::new(q4(r, 40), q4(r, 40))), _ => d2::gen_iso(r, lat, 50.0) };
+            v.push(("rect2_dist".into(), format!("{} {} {} {}", d2::hv(&he1), d2::hv(&he2), d2::hv(&t), d2::hiso(&p1))));
         }
         // ---- generic convex pairs at a chosen signed gap
         {
